@@ -9,8 +9,8 @@ Import ListNotations.
 Local Open Scope N_scope.
 
 Inductive case :=
-| Tx (src : N) (b : bytes) (bad : list (N * bytes)) (o : outcome txobs unit)
-| Hdr (src : N) (b : bytes) (o : outcome hdrobs unit)
+| Tx (src ctx : N) (b : bytes) (bad : list (N * bytes)) (o : outcome txobs unit) (alts : list altobs)
+| Hdr (src : N) (b : bytes) (o : outcome hdrobs unit) (alts : list altobs)
 | CsRead (which : N) (b : bytes) (o : outcome (N * N) unit)
 | CsWrite (which : N) (n : N) (o : outcome bytes unit)
 | VecU8 (b : bytes) (o : outcome (bytes * N) unit)
@@ -21,24 +21,32 @@ Inductive case :=
 Definition table_valid (bad : list (N * bytes)) (k : N) (x : bytes) : bool :=
   negb (existsb (fun p => (fst p =? k) && bytes_eqb (snd p) x) bad).
 
-Definition prefix_or (b : bytes) (c : N) (rw : option bytes) : bytes :=
-  match rw with None => firstn (N.to_nat c) b | Some w => w end.
-
+(** What the model predicts for an accepting call, compared field by field with the observation:
+    consumed length, re-serialisation, stored branch id, v1-v4 txid; a re-parse of the
+    re-serialisation is the same transaction (theorem [tx_reparse]) and a generated transaction
+    parses to itself (theorem [tx_roundtrip]), so both flags are predicted [true]; the model is a
+    function of the bytes only, so every reader kind must give the same result. *)
 Definition run_case (c : case) : bool :=
   match c with
-  | Tx _ b bad o =>
+  | Tx _ ctx b bad o alts =>
       let cd := c_tx (table_valid bad) in
       match dec cd b, o with
-      | Some (t, r), Ok (TxOk n rw _ _ _) =>
+      | Some (t, r), Ok (TxOk n rw txid br same gen_same) =>
           (n + nlen r =? nlen b) && bytes_eqb (enc cd t) (prefix_or b n rw)
-      | None, Err _ => true
+          && (effective_branch ctx t =? br)
+          && (negb (is_legacy (fst t)) || bytes_eqb (legacy_txid (table_valid bad) t) txid)
+          && same && gen_same
+          && forallb (alt_agrees n) alts
+      | None, Err _ => forallb alt_rejects alts
       | _, _ => false
       end
-  | Hdr _ b o =>
+  | Hdr _ b o alts =>
       match dec c_header b, o with
-      | Some (h, r), Ok (HdrOk n rw _ _) =>
+      | Some (h, r), Ok (HdrOk n rw hash same) =>
           (n + nlen r =? nlen b) && bytes_eqb (enc c_header h) (prefix_or b n rw)
-      | None, Err _ => true
+          && bytes_eqb (header_hash h) hash && same
+          && forallb (alt_agrees n) alts
+      | None, Err _ => forallb alt_rejects alts
       | _, _ => false
       end
   | CsRead which b o =>
@@ -77,8 +85,8 @@ Definition cs_out_eqb (a : option (N * N)) (o : outcome (N * N) unit) : bool :=
 
 Definition prop_case (c : case) : bool :=
   match c with
-  | Tx src b _ o => tx_prop src b o
-  | Hdr src b o => hdr_prop src b o
+  | Tx src ctx b _ o alts => tx_prop src ctx b o alts
+  | Hdr src b o alts => hdr_prop src b o alts
   | CsRead which b o => cs_out_eqb (cs_spec (if which =? 0 then Some MX else None) b) o
   | CsWrite which n o =>
       match o with
@@ -111,8 +119,8 @@ Definition version_code (b : bytes) : N :=
 (** path tag: origin of the input x outcome (reject / accepted version / panic) *)
 Definition tag_case (c : case) : N :=
   match c with
-  | Tx src b _ o => src * 10 + match o with Err _ => 0 | Ok _ => version_code b | Panic => 9 end
-  | Hdr src _ o => 200 + src * 3 + match o with Err _ => 0 | Ok _ => 1 | Panic => 2 end
+  | Tx src _ b _ o _ => src * 10 + match o with Err _ => 0 | Ok _ => version_code b | Panic => 9 end
+  | Hdr src _ o _ => 200 + src * 3 + match o with Err _ => 0 | Ok _ => 1 | Panic => 2 end
   | CsRead which _ o => 300 + which * 3 + match o with Err _ => 0 | Ok _ => 1 | Panic => 2 end
   | CsWrite which _ o => 310 + which * 3 + match o with Err _ => 0 | Ok _ => 1 | Panic => 2 end
   | VecU8 _ o => 320 + match o with Err _ => 0 | Ok _ => 1 | Panic => 2 end
